@@ -55,8 +55,13 @@ func newDeadLetter() *deadLetter {
 	}
 }
 
-// PreStart pre-starts the deadletter actor
+// PreStart pre-starts the deadletter actor. The letters kept for queries are
+// reset here, on every (re)start and before any message is served, not on
+// PostStart: SendDeadletter is a control message and can be served first.
 func (x *deadLetter) PreStart(*Context) error {
+	x.letters = xsync.NewMap[string, *Deadletter]()
+	x.counters = xsync.NewMap[string, *atomic.Int64]()
+	x.counter.Store(0)
 	return nil
 }
 
@@ -66,7 +71,7 @@ func (x *deadLetter) Receive(ctx *ReceiveContext) {
 	case *PostStart:
 		x.handlePostStart(ctx)
 	case *commands.SendDeadletter:
-		x.handleDeadletter(&msg.Deadletter)
+		x.handleDeadletter(ctx, &msg.Deadletter)
 	case *commands.PublishDeadletters:
 		x.handlePublishDeadletters()
 	case *commands.DeadlettersCountRequest:
@@ -90,21 +95,22 @@ func (x *deadLetter) handlePostStart(ctx *ReceiveContext) {
 	x.eventsStream = ctx.Self().eventsStream
 	x.logger = ctx.Logger()
 	x.pid = ctx.Self()
-	x.letters = xsync.NewMap[string, *Deadletter]()
-	x.counters = xsync.NewMap[string, *atomic.Int64]()
-	x.counter.Store(0)
 	if x.logger.Enabled(log.InfoLevel) {
 		x.logger.Infof("actor=%s started successfully", x.pid.Name())
 	}
 }
 
-func (x *deadLetter) handleDeadletter(msg *commands.Deadletter) {
+func (x *deadLetter) handleDeadletter(ctx *ReceiveContext, msg *commands.Deadletter) {
 	// increment the counter
 	x.counter.Inc()
 	// publish the deadletter message to the event stream
 	deadLetter := NewDeadletter(newPath(msg.Sender), newPath(msg.Receiver), msg.Message, msg.SendTime, msg.Reason)
 
-	x.eventsStream.Publish(eventsTopic, deadLetter)
+	// SendDeadletter travels through the system mailbox and can be served before
+	// PostStart (user mailbox), which is what sets x.eventsStream: publish through
+	// the PID's own stream, or the first dead letters after start-up are lost in a
+	// nil-pointer panic that the supervisor resumes from.
+	ctx.Self().eventsStream.Publish(eventsTopic, deadLetter)
 
 	// letters the message for future query
 	id := msg.Receiver.String()
